@@ -174,7 +174,9 @@ def compare(h, steps, model):
     """-> list of (step index, text) where the implementation and the model's history differ"""
     dis = []
     cur = {False: None, True: None}       # the model's complete file per slot
+    damaged = {False: False, True: False}     # a truncated cache file lies in the slot: it exists, but it is no cache
     for i, (op, o, m) in enumerate(zip(h["ops"], steps, model)):
+        if op["op"] == "corrupt": damaged[op["local"]] = True
         if op["op"] != "run": continue
         loc = op["cli"].get("local") is not None
         k = m["kind"]
@@ -200,7 +202,8 @@ def compare(h, steps, model):
         if st.startswith("C"):
             if o["ninja"] is None or (cur[loc] is not None and o["ninja"].decode("utf-8", "replace") != cur[loc]):
                 dis.append((i, "model: ninja file complete; implementation's file is missing or different"))
-        if m["cache"] != o["cache_exists"]:
+        if m["cache"]: damaged[loc] = False              # (a complete run wrote a new one)
+        if m["cache"] != o["cache_exists"] and not (damaged[loc] and not m["cache"]):
             dis.append((i, "cache file %s, model says %s" % ("exists" if o["cache_exists"] else "does not exist", "present" if m["cache"] else "absent")))
     return dis
 
